@@ -173,3 +173,161 @@ Theorem C09_pwl_column : forall c units W u, (u < units)%nat ->
   column u (pwl_project c units W) = pwl_project_col c (column u W).
 Proof. exact pwl_project_per_unit. Qed.
 Print Assumptions C09_pwl_column.
+
+(* ======================================================================
+   KroneckerFactoredLattice (Model/KFL.v; proofs in Proofs/UnitsKFL.v).
+     unit_params p u = the one-unit parameters [kernel_u], [scale_u], [bias_u]
+     has_unit p u    = u < length (p_kern p) /\ u < length (p_scale p)
+   root = tf.pow(., 1/dims), arbitrary.  The statements are equalities of the
+   computed values (no tolerance, no hypothesis on the configuration).
+   ====================================================================== *)
+From TFL Require Import Model.KFL Model.KFLUnits Proofs.UnitsKFL.
+From TFL Require Model.PWLEval Model.CategoricalEval Model.LatticeInterp Proofs.LatticeInterp Model.LinearEval.
+From TFL Require Import Proofs.UnitsOutputs.
+
+(* one application of kernel.constraint (StepK), scale.constraint (StepS) or
+   finalize_constraints (StepF): restricting the result to unit u = applying
+   the step to unit u's parameters alone (and unit u still exists) *)
+Theorem C09_kfl_step_unit : forall root c p st u, has_unit p u ->
+  unit_params (apply_step root c p st) u = apply_step root c (unit_params p u) st /\ has_unit (apply_step root c p st) u.
+Proof. exact apply_step_unit. Qed.
+Print Assumptions C09_kfl_step_unit.
+
+(* every history of constraint applications *)
+Theorem C09_kfl_run_unit : forall root c steps p u, has_unit p u ->
+  unit_params (run root c steps p) u = run root c steps (unit_params p u).
+Proof. exact run_unit. Qed.
+Print Assumptions C09_kfl_run_unit.
+
+(* the single functions, with their gates *)
+Theorem C09_kfl_kernel_constraint_unit : forall root c scale k u, (u < length scale)%nat -> (u < length k)%nat ->
+  [nth u (kernel_variable_constraint root c scale k) []] = kernel_variable_constraint root c [nth u scale []] [nth u k []].
+Proof. exact kernel_variable_constraint_unit. Qed.
+Print Assumptions C09_kfl_kernel_constraint_unit.
+
+Theorem C09_kfl_constraints_call_unit : forall root c scale k u, (u < length scale)%nat -> (u < length k)%nat ->
+  [nth u (kfl_constraints_call root c scale k) []] = kfl_constraints_call root c [nth u scale []] [nth u k []].
+Proof. exact kfl_constraints_call_unit. Qed.
+Print Assumptions C09_kfl_constraints_call_unit.
+
+(* finalize_weight_constraints itself (no gate) *)
+Theorem C09_kfl_finalize_weights_unit : forall root ms omin omax scale k u, (u < length scale)%nat -> (u < length k)%nat ->
+  [nth u (finalize_weights root ms omin omax scale k) []] = finalize_weights root ms omin omax [nth u scale []] [nth u k []].
+Proof. exact finalize_weights_unit. Qed.
+Print Assumptions C09_kfl_finalize_weights_unit.
+
+Theorem C09_kfl_scale_constraint_unit : forall c scale u,
+  [nth u (scale_variable_constraint c scale) []] = scale_variable_constraint c [nth u scale []] /\
+  [nth u (scale_constraints_call c scale) []] = scale_constraints_call c [nth u scale []].
+Proof. exact scale_constraints_unit. Qed.
+Print Assumptions C09_kfl_scale_constraint_unit.
+
+(* permuting units permutes the results; s is any map of unit indices
+   (selection / duplication / reordering) *)
+Theorem C09_kfl_permutation : forall root c steps p s n u, (u < n)%nat -> has_unit p (s u) ->
+  unit_params (run root c steps (select_units s n p)) u = unit_params (run root c steps p) (s u).
+Proof. exact run_select_units. Qed.
+Print Assumptions C09_kfl_permutation.
+
+(* implementation layout (L, units*dims, terms) -> (unit, term, dim, vertex):
+   unpacking the dims rows of unit u as a one-unit kernel = unit u of the
+   unpacked multi-unit kernel; and the tie's pair (Harness/H_C09.v, CKfl) *)
+Theorem C09_kfl_layout_unit : forall L units dims terms k u, (u < units)%nat ->
+  [nth u (unpack L units dims terms k) []] = unpack L 1 dims terms (slice_unit dims u k).
+Proof. exact unpack_unit. Qed.
+Print Assumptions C09_kfl_layout_unit.
+
+Theorem C09_kfl_run_on_slice : forall root c steps L units dims terms k s b u, (u < units)%nat -> (u < length s)%nat ->
+  run root c steps (mkPar (unpack L 1 dims terms (slice_unit dims u k)) [nth u s []] [nth u b 0]) =
+  unit_params (run root c steps (mkPar (unpack L units dims terms k) s b)) u.
+Proof. exact run_on_slice. Qed.
+Print Assumptions C09_kfl_run_on_slice.
+
+(* output of unit u: unit u's kernel, scale and bias only *)
+Theorem C09_kfl_output_unit_local : forall c p p' u xs,
+  nth u (p_kern p) [] = nth u (p_kern p') [] -> nth u (p_scale p) [] = nth u (p_scale p') [] ->
+  nth u (p_bias p) 0 = nth u (p_bias p') 0 -> unit_out c p u xs = unit_out c p' u xs.
+Proof. exact unit_out_local. Qed.
+Print Assumptions C09_kfl_output_unit_local.
+
+(* entry u of the layer output = unit u's function of row u of the input *)
+Theorem C09_kfl_layer_output_unit : forall c p xss u, (u < length (p_scale p))%nat ->
+  nth u (layer_out c p xss) 0 = unit_out c p u (nth u xss []).
+Proof. exact layer_out_unit. Qed.
+Print Assumptions C09_kfl_layer_output_unit.
+
+(* constraints, then output: two multi-unit layers whose INITIAL parameters
+   agree on unit u, after the same constraint history, on inputs that agree on
+   row u, give the same output of unit u; and it is the output of the
+   constrained one-unit layer made of unit u *)
+Theorem C09_kfl_constrained_output_local : forall root c steps p p' xss xss' u, has_unit p u -> has_unit p' u ->
+  unit_params p u = unit_params p' u -> nth u xss [] = nth u xss' [] ->
+  nth u (layer_out c (run root c steps p) xss) 0 = nth u (layer_out c (run root c steps p') xss') 0.
+Proof. exact constrained_layer_out_local. Qed.
+Print Assumptions C09_kfl_constrained_output_local.
+
+Theorem C09_kfl_constrained_output_unit : forall root c steps p u xs, has_unit p u ->
+  unit_out c (run root c steps p) u xs = unit_out c (run root c steps (unit_params p u)) 0 xs.
+Proof. exact constrained_unit_out. Qed.
+Print Assumptions C09_kfl_constrained_output_unit.
+
+(* batch rows: batch_out c p X = map (layer_out c p) X is the only place the
+   batch enters the model, so these are consequences of the model's form; that
+   the implementation has this form is what the run-time batch checks test *)
+Theorem C09_kfl_batch_rows : forall c p X (sel : list nat), (forall i, In i sel -> (i < length X)%nat) ->
+  batch_out c p (map (fun i => nth i X []) sel) = map (fun i => nth i (batch_out c p X) []) sel.
+Proof. exact batch_out_select. Qed.
+Print Assumptions C09_kfl_batch_rows.
+
+(* ======================================================================
+   Output of unit u depends only on unit u's parameters and inputs: the other
+   layer kinds (proofs in Proofs/UnitsOutputs.v).  Two layers of the same
+   shape that agree on unit u and differ arbitrarily elsewhere.
+   ====================================================================== *)
+Theorem C09_linear_output_unit_local : forall units units' K K' bias bias' bs xs xs' u, (u < units)%nat -> (u < units')%nat ->
+  column u K = column u K' -> nth u bias 0 = nth u bias' 0 -> nth u xs [] = nth u xs' [] ->
+  nth u (LinearEval.linear_eval units K bias bs xs) 0 = nth u (LinearEval.linear_eval units' K' bias' bs xs') 0.
+Proof. exact linear_unit_local. Qed.
+Print Assumptions C09_linear_output_unit_local.
+
+(* in_col cols u = the input column unit u reads (the only column when cols = 1) *)
+Theorem C09_categorical_output_unit_local : forall (L L' : CategoricalEval.cat_layer) row row' u,
+  CategoricalEval.c_buckets L = CategoricalEval.c_buckets L' -> CategoricalEval.c_units L = CategoricalEval.c_units L' ->
+  CategoricalEval.c_default L = CategoricalEval.c_default L' ->
+  column u (CategoricalEval.c_kernel L) = column u (CategoricalEval.c_kernel L') -> (u < CategoricalEval.c_units L)%nat ->
+  length row = length row' -> nth (in_col (length row) u) row 0 = nth (in_col (length row) u) row' 0 ->
+  nth u (CategoricalEval.cat_row L row) 0 = nth u (CategoricalEval.cat_row L' row') 0.
+Proof. exact cat_unit_local. Qed.
+Print Assumptions C09_categorical_output_unit_local.
+
+(* pwl_same_shape: units, keypoint type, cyclic, impute flag, missing input value equal;
+   pwl_agree_unit L L' u: kernel column u, unit u's keypoint tables, unit u's missing output equal *)
+Theorem C09_pwl_output_unit_local : forall (L L' : PWLEval.pwl_layer) u row given,
+  pwl_same_shape L L' -> pwl_agree_unit L L' u -> (u < PWLEval.p_units L)%nat ->
+  nth u (PWLEval.call_row L row given) 0 = nth u (PWLEval.call_row L' row given) 0.
+Proof. exact pwl_unit_local. Qed.
+Print Assumptions C09_pwl_output_unit_local.
+
+Theorem C09_pwl_output_input_local : forall (L : PWLEval.pwl_layer) u row row',
+  (u < PWLEval.p_units L)%nat -> length row = length row' ->
+  nth (if (length row =? 1)%nat then 0%nat else u) row 0 = nth (if (length row =? 1)%nat then 0%nat else u) row' 0 ->
+  nth u (PWLEval.call_row L row None) 0 = nth u (PWLEval.call_row L row' None) 0.
+Proof. exact pwl_unit_input_local. Qed.
+Print Assumptions C09_pwl_output_input_local.
+
+(* Lattice, hypercube and simplex: wfK units K u = u < units and every kernel row has units entries *)
+Theorem C09_lattice_output_unit_local : forall sc tensor clip units sizes (K K' : list (list Q)) u x,
+  Proofs.LatticeInterp.wfK units K u -> Proofs.LatticeInterp.wfK units K' u -> column u K = column u K' ->
+  LatticeInterp.unit_fn sc tensor clip units sizes K u x = LatticeInterp.unit_fn sc tensor clip units sizes K' u x.
+Proof. exact lattice_unit_local. Qed.
+Print Assumptions C09_lattice_output_unit_local.
+
+Theorem C09_lattice_eval_local : forall sc tensor clip units sizes (K K' : list (list Q)) pts pts' p u,
+  (p < length pts)%nat -> (p < length pts')%nat ->
+  Proofs.LatticeInterp.wfK units K u -> Proofs.LatticeInterp.wfK units K' u -> column u K = column u K' ->
+  nth u (nth p pts []) [] = nth u (nth p pts' []) [] ->
+  (u < length (nth p pts []))%nat -> (u < length (nth p pts' []))%nat ->
+  nth u (nth p (LatticeInterp.lattice_eval sc tensor clip units sizes K pts) []) 0 =
+  nth u (nth p (LatticeInterp.lattice_eval sc tensor clip units sizes K' pts') []) 0.
+Proof. exact lattice_eval_local. Qed.
+Print Assumptions C09_lattice_eval_local.
